@@ -3,12 +3,13 @@ package sql
 import (
 	"expvar"
 	"fmt"
-	"io"
 	"math"
 	"math/rand/v2"
 	"strconv"
 	"strings"
 	"time"
+	"unicode"
+	"unicode/utf8"
 
 	"github.com/rqlite/rqlite/v10/command/proto"
 	"github.com/rqlite/rqlite/v10/internal/random"
@@ -91,132 +92,145 @@ func Process(stmts []*proto.Statement, rwrand, rwtime bool) (retErr error) {
 }
 
 // processMulti processes a statement text which holds more than one statement, or
-// empty statements. Each statement is rewritten on its own; a statement that needs no
-// rewriting keeps its original text. As for a single statement, the query and explain
-// markers are those of the first statement. If any statement cannot be parsed the text
-// is left as it is.
+// empty statements. Each statement is rewritten on its own, the rest of the text
+// is kept as it is, including any part the parser does not accept. As for a single
+// statement, the query and explain markers are those of the first statement.
 func processMulti(stmt *proto.Statement, rwrand, rwtime bool) {
-	var texts []string
-	anyRewritten, explain, query := false, false, false
-	for _, text := range splitStatements(stmt.Sql) {
-		parsed, err := rsql.NewParser(strings.NewReader(text)).ParseStatement()
-		if err == io.EOF {
-			continue // nothing but comments
-		} else if err != nil {
-			return
+	text := stmt.Sql
+	parts, ok := splitStatements(text)
+	if !ok || len(parts) == 0 {
+		return
+	}
+
+	var b strings.Builder
+	copied := 0 // how much of text is in b, or has been replaced there
+	explain, query := false, false
+	for i, part := range parts {
+		if part.parsed == nil {
+			continue
 		}
 		rewriter := NewRewriter()
 		rewriter.RewriteRand = rwrand
 		rewriter.RewriteTime = rwtime
-		rwStmt, rewritten, ret, err := rewriter.Do(parsed)
+		rwStmt, rewritten, ret, err := rewriter.Do(part.parsed)
 		if err != nil {
 			return
 		}
-		if len(texts) == 0 {
-			explain, query = isExplain(parsed), ret
+		if i == 0 {
+			explain, query = isExplain(part.parsed), ret
 		}
 		if rewritten {
-			anyRewritten = true
-			text = rwStmt.String()
-		} else if strings.Contains(text, "--") {
-			// The text may end in a comment, which must not swallow the separator.
-			text += "\n"
+			b.WriteString(text[copied:part.start])
+			b.WriteString(leadingSpace(text[part.start:part.end]))
+			b.WriteString(rwStmt.String())
+			copied = part.end
 		}
-		texts = append(texts, text)
-	}
-	if len(texts) == 0 {
-		return
 	}
 	stmt.SqlExplain, stmt.ForceQuery = explain, query
-	if anyRewritten {
+	if copied > 0 {
 		stats.Add(numRewrittenStmts, 1)
-		stmt.Sql = strings.Join(texts, "; ")
+		b.WriteString(text[copied:])
+		stmt.Sql = b.String()
 	}
+}
+
+// part is a part of a statement text: a statement, or, if parsed is nil, the
+// text between two semicolons which is not the start of any statement the parser
+// accepts.
+type part struct {
+	start, end int
+	parsed     sql.Statement
+}
+
+// splitStatements returns the statements of text, leaving out empty statements.
+// The parser finds the end of each statement, which may hold semicolons itself as
+// the body of a CREATE TRIGGER statement does: a statement is the shortest run of
+// the pieces of text between semicolons which the parser accepts as one.
+func splitStatements(text string) ([]part, bool) {
+	pieces := splitAtSemicolons(text)
+	var parts []part
+	for i := 0; i < len(pieces); {
+		if pieces[i].empty {
+			i++
+			continue
+		}
+		r := &countingReader{r: strings.NewReader(text[pieces[i].start:])}
+		parsed, err := rsql.NewParser(r).ParseStatement()
+		if err != nil {
+			parts = append(parts, part{start: pieces[i].start, end: pieces[i].end})
+			i++
+			continue
+		}
+
+		// The parser has read the semicolon which ends the statement, if there is one.
+		end := pieces[i].start + r.n
+		last := i
+		for last < len(pieces)-1 && pieces[last].end+1 < end {
+			last++
+		}
+		if last < len(pieces)-1 && pieces[last].end+1 != end {
+			return nil, false
+		}
+		parts = append(parts, part{start: pieces[i].start, end: pieces[last].end, parsed: parsed})
+		i = last + 1
+	}
+	return parts, true
+}
+
+// piece is a part of a text between two of its semicolons. It is empty if it
+// holds nothing but white space and comments.
+type piece struct {
+	start, end int
+	empty      bool
+}
+
+// splitAtSemicolons returns the parts of text between its semicolons, other than
+// those inside string literals, quoted identifiers and comments.
+func splitAtSemicolons(text string) []piece {
+	var pieces []piece
+	p := piece{empty: true}
+	runes, bytes := 0, 0 // the scanner counts characters
+	scanner := rsql.NewScanner(strings.NewReader(text))
+	for {
+		pos, tok, _ := scanner.Scan()
+		if tok == rsql.EOF {
+			break
+		}
+		if tok == rsql.SEMI {
+			for ; runes < pos.Offset; runes++ {
+				_, size := utf8.DecodeRuneInString(text[bytes:])
+				bytes += size
+			}
+			p.end = bytes
+			pieces = append(pieces, p)
+			p = piece{start: bytes + 1, empty: true}
+		} else if tok != rsql.COMMENT {
+			p.empty = false
+		}
+	}
+	p.end = len(text)
+	return append(pieces, p)
+}
+
+// countingReader counts the bytes read through it.
+type countingReader struct {
+	r *strings.Reader
+	n int
+}
+
+func (c *countingReader) ReadRune() (rune, int, error) {
+	ch, size, err := c.r.ReadRune()
+	c.n += size
+	return ch, size, err
+}
+
+func leadingSpace(s string) string {
+	return s[:len(s)-len(strings.TrimLeftFunc(s, unicode.IsSpace))]
 }
 
 func isExplain(s sql.Statement) bool {
 	_, ok := s.(*sql.ExplainStatement)
 	return ok
-}
-
-// splitStatements splits a statement text at the semicolons which end its statements,
-// dropping empty statements. The semicolons inside the body of a CREATE TRIGGER
-// statement (BEGIN ... END, where CASE ... END may nest) do not end the statement.
-func splitStatements(text string) []string {
-	runes := []rune(text)
-	var texts []string
-	start := 0
-	add := func(end int) {
-		if t := strings.TrimSpace(string(runes[start:end])); t != "" {
-			texts = append(texts, t)
-		}
-	}
-
-	// Where in a statement the scan is: at its start, after CREATE [TEMP], in an
-	// ordinary statement, in the head of a CREATE TRIGGER, or depth levels deep in
-	// a trigger body. A trigger body which has been closed is an ordinary statement.
-	const (
-		atStart = iota
-		afterCreate
-		ordinary
-		triggerHead
-		triggerBody
-	)
-	state, depth := atStart, 0
-
-	scanner := rsql.NewScanner(strings.NewReader(text))
-	for {
-		pos, tok, lit := scanner.Scan()
-		if tok == rsql.EOF {
-			break
-		}
-		if tok == rsql.COMMENT {
-			continue
-		}
-		switch state {
-		case triggerBody:
-			switch tok {
-			case rsql.CASE:
-				depth++
-			case rsql.END:
-				if depth--; depth == 0 {
-					state = ordinary
-				}
-			}
-			continue
-		case triggerHead:
-			if tok == rsql.BEGIN {
-				state, depth = triggerBody, 1
-				continue
-			}
-		case atStart:
-			if tok == rsql.CREATE {
-				state = afterCreate
-				continue
-			}
-			if tok != rsql.SEMI {
-				state = ordinary
-			}
-		case afterCreate:
-			switch {
-			case tok == rsql.TEMP || strings.EqualFold(lit, "temporary"):
-				continue
-			case tok == rsql.TRIGGER:
-				state = triggerHead
-				continue
-			}
-			if tok != rsql.SEMI {
-				state = ordinary
-			}
-		}
-		if tok == rsql.SEMI {
-			add(pos.Offset)
-			start = pos.Offset + 1
-			state = atStart
-		}
-	}
-	add(len(runes))
-	return texts
 }
 
 // ContainsTime returns true if the statement contains a time-related function.
